@@ -132,8 +132,9 @@ def short_program(entry, side, cache, n, tag, sri):
     r = [{"op": "read_hash" + suf, "cache": cache, "sri": sri}]
     if key is not None:
         r.append({"op": "read" + suf, "cache": cache, "key": key})
+        r.append({"op": "metadata" + suf, "cache": cache, "key": key})
         r.append({"op": ("sr_" if s else "ar_") + "open", "cache": cache, "key": key})
-        r.append({"op": "r_stream", "h": {"ref": len(w) + 2}, "n": 1000})
+        r.append({"op": "r_stream", "h": {"ref": len(w) + 3}, "n": 1000})
     return w, r, key
 
 
@@ -206,6 +207,11 @@ def short_worker(ctx, job):
                 if isinstance(d, dict) and "data" in d:
                     d = d["data"]
                 if isinstance(d, dict) and "h" in d:
+                    continue
+                if isinstance(d, dict) and "integrity" in d and "size" in d:
+                    if d["size"] != n or d["integrity"] != want:
+                        V.violation(res, sig + ":recorded-size-or-integrity", "short answer %s: the index entry records size %r / integrity %r for %d bytes" % (fdesc, d["size"], d["integrity"], n), replay)
+                        break
                     continue
                 if not (isinstance(d, dict) and wr.data_matches(d, data)):
                     V.violation(res, sig + ":readback:" + (classify(rr) if "ok" not in rr else "wrong-bytes"), "short answer %s: read back gave %s" % (fdesc, _short(rr)), replay)
